@@ -141,6 +141,9 @@ impl Scene for S {
         let sub = subset_name(&self.subset);
         // context operations succeed while a strong handle exists
         for e in t.log {
+            if let Ev::Ctx { .. } = e.ev {
+                crate::check::oblige("context-ops-succeed");
+            }
             if let Ev::Ctx { op, ok: false, .. } = e.ev {
                 let what = match op {
                     CtxOp::Stop => "ctx.stop",
@@ -169,6 +172,7 @@ impl Scene for S {
         }
         // timers keep firing: interval period 2 -> ticks at t=2 and t=4 before the probes at t=5;
         // delayed_send(5) exactly once
+        crate::check::oblige("timers-keep-firing");
         let ticks1: Vec<u64> = an.enters.iter().filter(|e| matches!(e.cb, Cb::Tick { timer: 1, reg_inc: 0 })).map(|e| e.time).collect();
         if !(ticks1.contains(&2) && ticks1.contains(&4)) {
             out.push(Violation {
@@ -250,6 +254,7 @@ pub fn property() -> Property {
     Property {
         id: "C15",
         cases,
+        clauses: &["context-ops-succeed", "timers-keep-firing"],
         assumptions: &["discrete-event time in the quick tier (ticks are expected at exact virtual times)"],
     }
 }
